@@ -35,5 +35,12 @@ func (t Token) Is(ty TokenType) bool {
 func (t Token) Source(input []byte) []byte {
 	startOffset := t.StartPos.Offset
 	endOffset := t.EndPos.Offset + 1
+	// The synthetic EOF token is positioned at the end of the input: it has no source
+	if endOffset > len(input) {
+		endOffset = len(input)
+	}
+	if startOffset > endOffset {
+		startOffset = endOffset
+	}
 	return input[startOffset:endOffset]
 }
